@@ -80,6 +80,44 @@ fn check(s: &str, bad: &mut Vec<String>, n: &mut u64) {
     if usize::from_str(s).ok() != parse_usize_spec(&cs) { fail(format!("usize::from_str = {:?}, model {:?}", usize::from_str(s).ok(), parse_usize_spec(&cs))); }
     *n += 9;
 }
+// ---- A-FLOAT (prelude/float.rs): the model of f32 ordering, restated executably ----
+// fkey: a witness of the order-embedding the prelude postulates (sign-magnitude bits -> integers, -0.0 and +0.0 alike)
+fn fkey(x: f32) -> i64 { let b = x.to_bits(); let m = (b & 0x7fff_ffff) as i64; if b >> 31 == 1 { -m } else { m } }
+fn int_cmp(a: i64, b: i64) -> std::cmp::Ordering { a.cmp(&b) }
+fn fcmp_model(a: f32, b: f32) -> Option<std::cmp::Ordering> { if a.is_nan() || b.is_nan() { None } else { Some(int_cmp(fkey(a), fkey(b))) } }
+fn audit_float(bad: &mut Vec<String>, n: &mut u64) {
+    use std::cmp::Ordering;
+    let mut xs: Vec<f32> = vec![0.0, -0.0, 1.0, -1.0, 0.5, 0.001, 1.5, 2.0, f32::MIN_POSITIVE, -f32::MIN_POSITIVE, f32::MAX, f32::MIN, f32::INFINITY,
+        f32::NEG_INFINITY, f32::NAN, -f32::NAN, f32::from_bits(1), f32::from_bits(0x8000_0001), f32::from_bits(0x7fc0_0001), f32::from_bits(0xffff_ffff),
+        f32::from_bits(0x7f80_0001), f32::EPSILON, 1.0 + f32::EPSILON, 1.0 - f32::EPSILON / 2.0];
+    // plus what f32::from_str yields on the texts a TE header can carry
+    for t in ["0", "-0", "1", "0.5", "1e39", "-1e39", "1e-50", "NaN", "nan", "inf", "-inf", "infinity", "+1", ".5", "5.", "1e0"] { if let Ok(v) = t.parse::<f32>() { xs.push(v); } }
+    let mut z: u32 = 0x9e37_79b9;
+    for _ in 0..1500 { z ^= z << 13; z ^= z >> 17; z ^= z << 5; xs.push(f32::from_bits(z)); }
+    for &a in &xs { for &b in &xs {
+        if a.partial_cmp(&b) != fcmp_model(a, b) { bad.push(format!("partial_cmp({:?},{:?}) = {:?}, model {:?}", a, b, a.partial_cmp(&b), fcmp_model(a, b))); }
+        let le = matches!(fcmp_model(a, b), Some(Ordering::Less) | Some(Ordering::Equal));
+        if (a <= b) != le { bad.push(format!("{:?} <= {:?} is {}, model {}", a, b, a <= b, le)); }
+        *n += 2;
+    } }
+    // slice::sort_by with a comparator that IS the order of a key (the precondition of verif_sort_by): sorted permutation, no panic;
+    // Vec::retain keeps, in order, exactly the accepted elements
+    let mut z: u32 = 12345;
+    for len in 0..200usize {
+        let mut v: Vec<(usize, f32)> = (0..len).map(|i| { z ^= z << 13; z ^= z >> 17; z ^= z << 5; (i, xs[(z as usize) % xs.len()]) }).collect();
+        let before = v.clone();
+        v.retain(|e| !e.1.is_nan());
+        let kept: Vec<(usize, f32)> = before.iter().cloned().filter(|e| !e.1.is_nan()).collect();
+        if v.len() != kept.len() || v.iter().zip(kept.iter()).any(|(a, b)| a.0 != b.0) { bad.push(format!("retain: len {} kept differently", len)); }
+        let unsorted = v.clone();
+        v.sort_by(|a, b| b.1.partial_cmp(&a.1).unwrap_or(Ordering::Equal));
+        let mut ids: Vec<usize> = v.iter().map(|e| e.0).collect(); ids.sort();
+        let mut ids0: Vec<usize> = unsorted.iter().map(|e| e.0).collect(); ids0.sort();
+        if ids != ids0 { bad.push(format!("sort_by: len {} not a permutation", len)); }
+        if v.windows(2).any(|w| -fkey(w[0].1) > -fkey(w[1].1)) { bad.push(format!("sort_by: len {} not in key order", len)); }
+        *n += 3;
+    }
+}
 fn main() {
     let mut bad = Vec::new();
     let mut n = 0u64;
@@ -100,5 +138,6 @@ fn main() {
     for s in ["18446744073709551615", "18446744073709551616", "+18446744073709551615", "00000000000000000000000000000000000007", "340282366920938463463374607431768211456", "1_000", "0x10", "１２", " 1", "1 ", "+", "-0", "+-1", "++1"] {
         check(s, &mut bad, &mut n);
     }
+    audit_float(&mut bad, &mut n);
     if bad.is_empty() { println!("AUDIT-OK {} comparisons, strings of length <= 5 over {} characters", n, alpha.len()); } else { println!("AUDIT-MISMATCH {}", bad.join(" | ")); std::process::exit(1); }
 }
